@@ -403,6 +403,43 @@ def rule_lane_copy(ctx, R="C04/lane-copy"):
                   "bytes [..min(16*|dst|, 4*|src|)) of the u128 slots are the same-index bytes of the u32 words (lane k of register r = word 4r+k)",
                   "the byte-wise register copy is not dst_bytes[..n] <- src_bytes[..n] with n = min of both byte lengths: %s" % why)
         return
+    # raw pointer copy form: copy_nonoverlapping::<E>(src.as_ptr().cast(), dst.as_mut_ptr().cast(), n) with n * size_of::<E>() == min(16*|dst|, 4*|src|)
+    pcs = [(bi, t) for bi, t in b.calls(lambda c: (c.short or "").split("::")[-1] in ("copy_nonoverlapping", "copy") and "ptr" in (c.short or ""))]
+    if pcs:
+        bi, t = pcs[0]
+        inst = CalleeView(t["callee"]).inst or ""
+        esz = {"u8": 1, "u16": 2, "u32": 4, "u64": 8, "u128": 16}.get(inst.split("::<")[-1].rstrip(">").strip(), None)
+        a = o.call_args(bi)
+        bad = None
+
+        def base_of(e, ptr_name, param):
+            e = strip(e)
+            while e[0] == "call" and e[1].split("::")[-1] in ("cast", "cast_const", "cast_mut", "add", "offset") and e[2]:
+                e = strip(e[2][0])
+            return e[0] == "call" and e[1].split("::")[-1] == ptr_name and root(strip(e[2][0])) == ("param", param)
+        okp = len(pcs) == 1 and esz is not None and base_of(a[0], "as_ptr", 2) and base_of(a[1], "as_mut_ptr", 1)
+        if okp:
+            try:
+                for D, S in ((8, 32), (16, 64), (8, 16), (2, 64), (16, 8)):
+                    def leaf(e, D=D, S=S):
+                        e = core(e)
+                        src_ = e[1] if e[0] == "len" else (e[2][0] if e[0] == "call" and e[1].split("::")[-1] == "len" and e[2] else None)
+                        if src_ is not None:
+                            r_ = root(strip(src_))
+                            if r_ == ("param", 1):
+                                return (D, "usize")
+                            if r_ == ("param", 2):
+                                return (S, "usize")
+                        return None
+                    n_ = ipe.Eval({}, {}, leaf=leaf).val(core(a[2]))[0]
+                    if n_ * esz != min(16 * D, 4 * S):
+                        bad = "for %d registers and %d words it copies %d x %d bytes, the registers hold min(%d, %d)" % (D, S, n_, esz, 16 * D, 4 * S)
+            except ipe.Unsupported as e:
+                ctx.unproven(R, "ptr-copy", b.where(bi), "cannot evaluate the copied element count: %s" % e)
+                return
+        ctx.check(okp and bad is None, R, "ptr-copy", b.where(bi), "the raw copy moves min(16*|dst|, 4*|src|) bytes from src's start to dst's start",
+                  "the raw register copy does not move all register bytes: %s" % (bad or "unexpected pointers %s / %s" % (show(a[0])[:50], show(a[1])[:50])))
+        return
     # lane form
     stores = []
     for bi, blk in enumerate(b.blocks):
